@@ -110,6 +110,40 @@ impl TempNames {
     }
 }
 
+impl TempNames {
+    /// Free text (error messages): sandbox root and temporary names are normalised.
+    pub fn norm_text(&mut self, t: &str) -> String {
+        let t = t.replace(seam::root(), "<sandbox>");
+        if !t.contains(".tmp") {
+            return t;
+        }
+        let b = t.as_bytes();
+        let mut out = String::new();
+        let mut i = 0;
+        while i < b.len() {
+            if b[i..].starts_with(b".tmp")
+                && i + 10 <= b.len()
+                && b[i + 4..i + 10].iter().all(|c| c.is_ascii_alphanumeric())
+            {
+                let name = &t[i..i + 10];
+                let n = self.map.len();
+                let e = self
+                    .map
+                    .entry(name.to_string())
+                    .or_insert_with(|| format!("T{}", n));
+                out.push_str(e);
+                i += 10;
+            } else {
+                // `t` may hold multi-byte characters: copy one whole character
+                let ch = t[i..].chars().next().unwrap();
+                out.push(ch);
+                i += ch.len_utf8();
+            }
+        }
+        out
+    }
+}
+
 pub fn is_syscall(k: OpKind) -> bool {
     !matches!(k, OpKind::Start | OpKind::Boundary | OpKind::Preempt)
 }
@@ -131,7 +165,13 @@ pub fn hash_events(events: &[Event]) -> u64 {
         fnv1a(&mut h, e.path2.as_bytes());
         fnv1a(&mut h, &(e.len as u64).to_le_bytes());
         fnv1a(&mut h, format!("{:?}", e.action).as_bytes());
-        fnv1a(&mut h, &e.ret.to_le_bytes());
+        // descriptor numbers depend on what else the process has open: only their sign counts
+        let ret = if matches!(e.kind, OpKind::OpenRead | OpKind::OpenWrite) && e.ret >= 0 {
+            0
+        } else {
+            e.ret
+        };
+        fnv1a(&mut h, &ret.to_le_bytes());
         fnv1a(&mut h, &e.errno.to_le_bytes());
     }
     h
@@ -297,7 +337,7 @@ pub fn run<P: Policy>(
             kind: op.kind,
             path: names.norm(&op.path),
             path2: if op.kind == OpKind::Boundary {
-                op.path2.clone()
+                names.norm_text(&op.path2)
             } else {
                 names.norm(&op.path2)
             },
